@@ -9,7 +9,7 @@ ID = "C13"
 RULE = ("Compositions are generated as letter->count tables satisfying premise 1 (only ACGTUN, either case) or premise 2 "
         "(>= 1/4 of residues from DEFHIKLMPQRSVWY, the rest from all 26 letters; lower-case rates drawn independently for the protein-only letters and the rest: 0, 2 %, 50 %, 98 %, 100 %), including exact-boundary "
         "tables (protein-only fraction exactly 1/4 with the remainder on one letter), then laid out as 2..40 sequences in "
-        "a drawn order with drawn names; observed through kalign_arr_to_msa (array) and the FASTA/MSF/Clustal readers, "
+        "a drawn order with drawn names; observed through kalign_arr_to_msa (array; the buffers carry text of the other kind behind the given lengths) and the FASTA/MSF/Clustal readers, "
         "also as gapped presentations (up to 95% gap characters); FASTA input is in one file or split over 2..3 files read into one object; a quarter of the cases are observed after 1..3 earlier calls (array or file input of either kind, up to 18000 residues) in the same process. Oracle: reported biotype == expected kind, and equal "
         "after permuting and renaming the sequences; for inputs of <= 300 residues the run must accept the alignment type of the expected kind and reject the other. extra(): totals of 120000..1200000 residues (thorough ..4500000) enumerated for five alphabets; boundary compositions enumerated exhaustively for all "
         "(protein-only letter, filler letter) pairs. Non-trivial = >= 2 distinct letters; distinct by composition+layout hash.")
@@ -154,8 +154,10 @@ def observe(seqs, names, via, gapfrac, gap_seed, history=None, nfiles=1, split_s
                 raise kal.Rejected("reader returned different residues (C04/C06 territory)", {"n": len(m["seqs"]), "biotype": m["biotype"]})
             return m["biotype"]
     if via == "arr":
-        if not pre:
-            return kal.biotype_of(seqs)
+        # behind the given lengths the caller's buffers hold text of the other kind (the interface is (pointer, length))
+        want_ = gen.expected_kind(seqs)
+        tail = ("DEFHIKLMPQRSVWY" * 30) if want_ == "dna" else ("ACGTN" * 300)
+        pre = ["tail %s" % tail] + pre
         sp = wd.write(runner.seqset_bytes(seqs), ".seqs")
         pr = runner.run_probe(pre + ["arr2msa 0 %s" % sp, "dump 0", "free 0"])
         if pr.ended.bad or pr.ended.rc != 0 or not pr.steps or len(pr.steps) < len(pre) + 2:
